@@ -74,6 +74,7 @@ def run(facts, rep):
     d7_delegate(facts, rep)
     d8_tree_window(facts, rep)
     d9_reference_window(facts, rep)
+    d10_token_ownership(facts, rep)
     idiom(facts, rep)
 
 
@@ -437,3 +438,110 @@ def d9_reference_window(facts, rep):
                    'cancelled but the extra reference is never released, the wait never ends and the stored exception is never '
                    'rethrown' % (node['ln'], '; '.join(sorted(set(bad))[:3])), ln=node['ln'], key_extra='%s:%s' % (fn.file, node['ln']))
     rep.floor('D9', 12, 'reserve() sites on wait contexts / vertices')
+
+
+def exceptional_path_functions(facts, fn):
+    """functions whose body also runs when an exception leaves fn: functors handed to make_raii_guard (a guard that is
+    dismissed later still runs on the exceptional path) and handlers of try_call(...).on_exception / on_completion"""
+    out = []
+    for pos, s, node, d in calls_named(fn, ('make_raii_guard',)):
+        for a in node.get('a', []):
+            out += lambdas_in(facts, fn, a)
+    for pos, kind, bodies, handlers, node in try_call_sites(facts, fn):
+        out += handlers
+    return out
+
+
+def d10_token_ownership(facts, rep):
+    """A pipeline item ("token") boxed by the library is owned by the stage_task (my_object).  A filter's operator() consumes its
+    input token and returns the next one, which replaces my_object.  When the user body throws, operator() never returns:
+    my_object still names the input token and ~stage_task() finalises it (cancel path).  So the input token must be destroyed
+      - exactly once on every normal path through operator(), after the body ran, and
+      - never on the exceptional path of operator() (guard functor, try_call handler, catch block): the owner does that.
+    On the caller side the pointer handed to the filter is replaced by the filter's result in the same statement."""
+    n = 0
+    for fn in facts.fns.values():
+        if fn.p != D1 + 'concrete_filter::operator()' :
+            continue
+        params = [pp for pp in fn.d.get('params', []) if pp.get('n')]
+        uses_input = any(nd.get('k') == 'var' and 'param' in nd for nd in fn.nodes)
+        dt = calls_named(fn, ('destroy_token',))
+        for c in calls(fn):
+            g = facts.fns.get(c[2].get('fn'))
+            if g is not None and g.kind == 'lambda' and g.d.get('lparent') == fn.u and calls_named(g, ('destroy_token',)):
+                dt.append(c)           # a local helper lambda that is called directly is part of the normal path
+        dts = set(c[1] for c in dt)
+        body = [c for c in calls(fn) if c[1] not in dts and ((c[3] or {}).get('n') in ('invoke', 'operator()') or fn.nodes[c[1]].get('tp'))]
+        if not uses_input:
+            continue            # first filter of a pipeline: no input token
+        n += 1
+        once = bool(dt) and bool(body)
+        wit = ''
+        if once:
+            # every path from the (last) body invocation to the exit passes exactly one destroy_token
+            for b in body:
+                ok, w = every_path_passes(fn, b[0], lambda p, e: p in set(c[0] for c in dt))
+                if not ok:
+                    once, wit = False, w
+            for c in dt:
+                reached, ex, par = fn.walk(c[0])
+                if any(q in reached for q in set(x[0] for x in dt)):
+                    once, wit = False, 'a second destroy_token is reachable after the one at line %s' % c[2]['ln']
+                if not any(fn.can_reach(b[0], c[0]) for b in body):
+                    once, wit = False, 'destroy_token at line %s does not follow the body invocation' % c[2]['ln']
+        rep.ob('D10', 'K3', fn, 'the consumed input token is destroyed exactly once on the normal path, after the body returned', once,
+               'the boxed input item is leaked or destroyed twice when the filter completes normally (%s)' % wit)
+        bad = []
+        for g in exceptional_path_functions(facts, fn):
+            if calls_named(g, ('destroy_token', 'finalize')):
+                bad.append('functor at line %s runs at scope exit / on exception' % g.l0)
+        for b, cn in catch_blocks(fn):
+            reached, ex, par = fn.walk((b, -1))
+            if any(is_call_to(fn, fn.elems(q[0])[q[1]], shortnames=('destroy_token', 'finalize')) for q in reached):
+                bad.append('catch block at line %s' % cn.get('ln'))
+        rep.ob('D10', 'K9', fn, 'the input token is not destroyed on the exceptional path of the filter (its owner, the stage task, finalises it)',
+               not bad, 'when the user body throws the token is destroyed here (%s) AND again by ~stage_task() through filter->finalize(my_object): '
+               'double destruction / double free of the boxed item' % '; '.join(bad))
+    if n < 2:
+        raise AnalysisBroken('fewer than two input-taking concrete_filter::operator() instantiations found (%d)' % n)
+    for fn in facts.get(R1 + 'stage_task::execute_filter'):
+        k = 0
+        for pos, s, node, d in calls(fn):
+            if not ((d or {}).get('n') == 'operator()' and (d or {}).get('cls', '').endswith('base_filter')):
+                continue
+            k += 1
+            arg = node.get('a', [None])[0]
+            arg_m = last_member(fn, arg) if arg is not None else None
+            pm = fn.parent_map()
+            par = pm.get(s)
+            for _ in range(3):
+                if par is not None and fn.nodes[par].get('k') in ('cast', 'rd'):
+                    par = pm.get(par)
+            pn = fn.nodes[par] if par is not None else {}
+            ok = pn.get('k') == 'binop' and pn.get('op') == '=' and arg_m is not None and last_member(fn, pn['l']) == arg_m
+            rep.ob('D10', 'K10', fn, 'the token handed to a filter is replaced by the filter\'s result (line %s)' % node['ln'], ok,
+                   'after a normal return the task still names the consumed token: it is finalised again by the destructor or passed to '
+                   'the next filter', ln=node['ln'], key_extra=str(node['ln']))
+        if k < 2:
+            raise AnalysisBroken('stage_task::execute_filter: filter invocations not found (%d)' % k)
+    # parked items: an item that arrives out of turn at a serial filter is parked in the filter's input_buffer (try_put_token
+    # copies the task_info into array[] and the depositing task lets go of it).  It leaves the buffer either through
+    # try_to_spawn_task_for_next_token (normal operation) or - when the pipeline is cancelled before its turn comes - never.
+    # The teardown of the pipeline is then the last owner: it must hand every still valid entry to the filter's finalize().
+    from engine.rules import Summaries
+    summ = Summaries(facts, max_depth=4)
+
+    def finalizes_valid(f, pos, e):
+        if not is_call_to(f, e, shortnames=('finalize',)):
+            return False
+        d = f.callee(e) or {}
+        if not (d.get('cls') or '').endswith('base_filter'):
+            return False
+        ve = edges_where(f, lambda a, truth: truth and f.n(f.strip(a)).get('k') == 'member' and f.n(f.strip(a))['n'] == 'is_valid')
+        return bool(ve) and dominated_by_edges(f, pos, ve)[0]
+    for fn in facts.get(R1 + 'pipeline::(dtor)'):
+        ok = summ.may(fn, 'finalize-parked', finalizes_valid)
+        rep.ob('D10', 'K3', fn, 'the pipeline teardown finalises the items that are still parked in a serial filter\'s input buffer', ok,
+               'input_buffer::array[] entries with is_valid set (items that arrived out of turn) are dropped with the array when the pipeline '
+               'was cancelled before their turn: the boxed items are never destroyed')
+    rep.floor('D10', 6, 'pipeline token ownership')
